@@ -38,6 +38,7 @@ FILES = {
     "internal/pkg/input/device.go": ["C20"],
     "internal/pkg/input/info.go": ["C20"],
     "cmd/hidi/config.go": ["C18", "C09"],
+    "cmd/hidi/manager.go": ["C19"],
     D + "open_rgb.go": ["C17", "C16"],
 }
 # second pass (--full): the checks of the properties a FUNCTION serves, instead of everything anchored in the file
